@@ -100,6 +100,12 @@ func runC06(cases string, res *Result) {
 		}
 
 		// ---- the model
+		if stream == "c06-rand" && class == "parse" {
+			// a template of a generated set that the parser refuses (for instance a block nested in a block of the
+			// same name, a parse error since the repair of the unbounded recursion): not a sandbox matter
+			res.Hist["rand:unparsable-set"]++
+			return
+		}
 		if kind == "skip" {
 			res.Unmodelled++
 			res.Hist["skip:"+val]++
